@@ -147,7 +147,10 @@ func execLRUConc(t *testing.T, sc *lruScenario) *Outcome {
 					}
 					in := lruIn{Op: op.Op, Key: op.Key}
 					var out lruOut
-					call := atomic.AddInt64(&seq, 1)
+					var call, ret int64
+					if !sc.NoStamps {
+						call = atomic.AddInt64(&seq, 1)
+					}
 					switch op.Op {
 					case "put":
 						in.Val = vi + 1
@@ -159,7 +162,9 @@ func execLRUConc(t *testing.T, sc *lruScenario) *Outcome {
 						s, ok := cache.Get(keyName(op.Key))
 						out = lruOut{Val: ids[s], OK: ok}
 					}
-					ret := atomic.AddInt64(&seq, 1)
+					if !sc.NoStamps {
+						ret = atomic.AddInt64(&seq, 1)
+					}
 					perTask[ti] = append(perTask[ti], porcupine.Operation{ClientId: ti, Input: in, Call: call, Output: out, Return: ret})
 				}
 			}()
@@ -183,7 +188,33 @@ func execLRUConc(t *testing.T, sc *lruScenario) *Outcome {
 		o.Fail = Failf("lru.conc.blocked", "cache operations never returned", "%.300s", leak)
 		return o
 	}
-	res := porcupine.CheckOperationsTimeout(lruPorcupineModel(sc.Capacity), hist, 20*time.Second)
+	// attribution (both modes): a Get may only return a session that some client Put under that very key
+	putKey := map[int]int{}
+	for _, op := range hist {
+		if in := op.Input.(lruIn); in.Op == "put" {
+			putKey[in.Val] = in.Key
+		}
+	}
+	for _, op := range hist {
+		in, out := op.Input.(lruIn), op.Output.(lruOut)
+		if in.Op != "get" || !out.OK {
+			continue
+		}
+		if out.Val == 0 {
+			o.Fail = Failf("lru.conc.nil_hit", "Get reported a hit with a nil session", "client %d get(%d)", op.ClientId, in.Key)
+			return o
+		}
+		if k, ok := putKey[out.Val]; !ok || k != in.Key {
+			o.Fail = Failf("lru.conc.attribution", "Get returned a session that was never stored under that key", "client %d get(%d) -> #%d stored under key %d", op.ClientId, in.Key, out.Val, k)
+			return o
+		}
+	}
+	res := porcupine.Ok
+	if sc.NoStamps {
+		o.count("probe.conc_unstamped_histories", 1)
+	} else {
+		res = porcupine.CheckOperationsTimeout(lruPorcupineModel(sc.Capacity), hist, 20*time.Second)
+	}
 	switch res {
 	case porcupine.Illegal:
 		var d []string
@@ -195,7 +226,9 @@ func execLRUConc(t *testing.T, sc *lruScenario) *Outcome {
 	case porcupine.Unknown:
 		o.count("probe.linearizability_inconclusive", 1)
 	default:
-		o.count("probe.linearizable_histories", 1)
+		if !sc.NoStamps {
+			o.count("probe.linearizable_histories", 1)
+		}
 	}
 	for _, rr := range kit.RaceDelta() {
 		o.count("probe.race_reports", 1)
